@@ -73,10 +73,17 @@ Inductive op : Type :=
 
 Definition result := option err.
 
-Definition flatten_items (s : st) (l : list uid) : list uid :=
-  flat_map (fun u => match kind_of s u with KSeq => kids_of s u | _ => [u] end) l.
-Definition inner_seqs (s : st) (l : list uid) : list uid :=
-  filter (fun u => match kind_of s u with KSeq => true | _ => false end) l.
+(* PassSequence.flatten: walk a snapshot of the list; an inner sequence contributes its current units
+   and is emptied (its units detached) on the spot *)
+Fixpoint flatten_loop (s : st) (items : list uid) (acc : list uid) : st * list uid :=
+  match items with
+  | [] => (s, acc)
+  | u :: r =>
+      match kind_of s u with
+      | KSeq => flatten_loop (update s u [] (kids_of s u) []) r (acc ++ kids_of s u)
+      | _ => flatten_loop s r (acc ++ [u])
+      end
+  end.
 
 Definition step (s : st) (o : op) : st * result :=
   match o with
@@ -122,11 +129,10 @@ Definition step (s : st) (o : op) : st * result :=
   | Clear q => (update s q [] (kids_of s q) [], None)
   | Flatten q =>
       let l := kids_of s q in
-      let nl := flatten_items s l in
-      let s1 := fold_left (fun a j => update a j [] (kids_of a j) []) (inner_seqs s l) s in
-      let s2 := update s1 q [] l [] in
+      let '(s1, nl) := flatten_loop s l [] in
+      let s2 := update s1 q [] (kids_of s1 q) [] in
       (update s2 q nl [] nl, None)
-  | ListCopy q => (s, None)
+  | ListCopy q => (update s q (kids_of s q) [] (kids_of s q), None)   (* the copy's constructor re-parents every listed unit *)
   | Reverse q => (update s q (rev (kids_of s q)) [] [], None)
   end.
 
